@@ -428,7 +428,7 @@ func otherPrin(t *rapid.T, label string, avoid ...int) int {
 // PrincipalDeviations lists the deviation kinds of C01.
 var PrincipalDeviations = []string{"rewire-aud", "rewire-iss", "subject-other", "subject-undef", "last-not-root",
 	"foreign-root", "foreign-root-suffix", "subject-other-run", "root-in-audience", "swap", "duplicate", "truncate-root", "truncate-leaf", "missing", "loader-error",
-	"empty", "wrong-invoker", "inv-subject-other", "reverse", "rotate"}
+	"empty", "wrong-invoker", "inv-subject-other", "reverse", "rotate", "near-twin-aud", "near-twin-sub", "near-twin-inv-sub"}
 
 // ApplyPrincipalDeviation mutates c in place with one labelled deviation at a drawn position.
 func ApplyPrincipalDeviation(t *rapid.T, c *Case, kind string) {
@@ -514,6 +514,27 @@ func ApplyPrincipalDeviation(t *rapid.T, c *Case, kind string) {
 		j := rapid.IntRange(0, n-1).Draw(t, "devpos2")
 		c.Links[pos], c.Links[j] = c.Links[j], c.Links[pos]
 		label = fmt.Sprintf("%s@%d,%d/%d", kind, pos, j, n)
+	case "near-twin-aud", "near-twin-sub", "near-twin-inv-sub":
+		// a principal in a role that needs no signature replaced by a keyless near-twin of itself (see Prin)
+		tw := 100 * rapid.IntRange(1, 3).Draw(t, "twinkind")
+		switch kind {
+		case "near-twin-aud":
+			if n == 0 || c.Links[pos].Aud < 0 || c.Links[pos].Aud >= 100 {
+				return
+			}
+			c.Links[pos].Aud += tw
+		case "near-twin-sub":
+			if n == 0 || c.Links[pos].Sub < 0 || c.Links[pos].Sub >= 100 {
+				return
+			}
+			c.Links[pos].Sub += tw
+		default:
+			if c.Inv.Sub < 0 || c.Inv.Sub >= 100 {
+				return
+			}
+			c.Inv.Sub += tw
+		}
+		label = fmt.Sprintf("%s(kind%d)@%d/%d", kind, tw/100, pos, n)
 	case "reverse":
 		// the whole proof list the other way round (root first, as older UCAN versions listed it)
 		if n < 2 {
